@@ -30,6 +30,19 @@ func NewSource(chunks [][]byte, withLast bool, tail int) *Source {
 	return s
 }
 
+// SetFaultKinds replaces the two fault values by values of the given kinds (see FaultKinds).
+// Kinds that are not distinguishable by == from each other are kept apart by using them for one
+// of the two only.
+func (s *Source) SetFaultKinds(k1, k2 string) *Source {
+	if k1 != "unexpected-eof" || k2 != "unexpected-eof" {
+		s.faults[1], s.faults[2] = MakeFault(k1, 1), MakeFault(k2, 2)
+	}
+	if s.faults[1] == s.faults[2] {
+		s.faults[2] = &FaultErr{"fault 2"}
+	}
+	return s
+}
+
 func (s *Source) tailErr() error {
 	s.nerr++
 	switch s.Tail {
@@ -68,9 +81,11 @@ func (s *Source) CoqErr(err error) string {
 	switch {
 	case err == io.EOF:
 		return "IoEOF"
-	case err == s.faults[1]:
+	case err == nil:
+		return "IoBufferFull (* nil *)"
+	case s.same(err, s.faults[1]):
 		return "(IoFault 1%N)"
-	case err == s.faults[2]:
+	case s.same(err, s.faults[2]):
 		return "(IoFault 2%N)"
 	case err == io.ErrNoProgress:
 		return "IoNoProgress"
@@ -78,6 +93,15 @@ func (s *Source) CoqErr(err error) string {
 		return "IoTooLong"
 	}
 	return "IoBufferFull (* unexpected: " + strings.ReplaceAll(fmt.Sprint(err), "*)", "") + " *)"
+}
+
+func (s *Source) same(a, b error) (ok bool) {
+	defer func() {
+		if recover() != nil {
+			ok = false
+		}
+	}()
+	return a == b
 }
 
 func (s *Source) CoqOptErr(err error) string {
